@@ -18,7 +18,7 @@
      app_alive    = the label is not application start/stop/loop-close *)
 From Coq Require Import ZArith List Bool.
 From PTK Require Import Lib.Sx Model.C20_StdoutProxy
-  Proofs.C20_Queue Proofs.C20_Chain Proofs.C20_Order Proofs.C20_Refuted.
+  Proofs.C20_Queue Proofs.C20_Chain Proofs.C20_Order Proofs.C20_Refuted Proofs.C20_Progress.
 Import ListNotations.
 Open Scope Z_scope.
 
@@ -27,10 +27,10 @@ Open Scope Z_scope.
    shared _buffer, concatenated in this order, are exactly the texts of the
    write calls in lock order: queue order = lock order, the single consumer
    hands on in queue order, nothing lost or duplicated up to the hand-over. *)
-Theorem C20_queue_order : forall c ls,
-  let s := run (init c) ls in
+Theorem C20_queue_order : forall c r ls,
+  let s := run (init2 c r) ls in
   concat (handed (px s)) ++ f_text (fth (px s)) ++ queue_text (px s) ++ buf (px s) = stream ls.
-Proof. exact queue_order. Qed.
+Proof. intros c r ls. exact (ptext_run ls (init2 c r)). Qed.
 Print Assumptions C20_queue_order.
 
 (* The stream is made of whole write calls (never split by another thread's
@@ -44,24 +44,27 @@ Print Assumptions C20_blocks.
 (* No application, every schedule: at every moment the terminal text followed
    by what is still on its way is the stream (so the terminal text is a prefix
    of the stream); every write happens with no application running. *)
-Theorem C20_in_order_noapp : forall c ls,
+Theorem C20_in_order_noapp : forall c r ls,
   forallb no_lifecycle ls = true ->
-  let s := run (init c) ls in
+  let s := run (init2 c r) ls in
   pipeline s = stream ls /\ forallb ev_ok (out s) = true.
 Proof. exact in_order_noapp. Qed.
 Print Assumptions C20_in_order_noapp.
 
 (* ... hence exactly once, in order, whole, after everything is flushed. *)
-Theorem C20_exactly_once_noapp : forall c ls,
-  forallb no_lifecycle ls = true -> drained (run (init c) ls) ->
-  out_text (run (init c) ls) = concat (map snd (writes ls)).
+Theorem C20_exactly_once_noapp : forall c r ls,
+  forallb no_lifecycle ls = true -> drained (run (init2 c r) ls) ->
+  out_text (run (init2 c r) ls) = concat (map snd (writes ls)).
 Proof.
-  intros c ls H D. rewrite <- stream_writes, <- (drained_out _ D).
-  exact (proj1 (in_order_noapp c ls H)).
+  intros c r ls H D. rewrite <- stream_writes, <- (drained_out _ D).
+  exact (proj1 (in_order_noapp c r ls H)).
 Qed.
 Print Assumptions C20_exactly_once_noapp.
 
-(* One application alive throughout (started before the run; it may exit -
+(* [r] = the output answers cursor position requests: a section then waits in
+   renderer.wait_for_cpr_responses() (rendering still enabled) until the
+   outstanding reports arrive (LCprAnswer) or time out (LCprTimeout).
+   One application alive throughout (started before the run; it may exit -
    AppExit is allowed - but is not stopped/restarted and its loop is not
    closed), the proxy created in ANY AppSession (c), every schedule, including
    foreign in_terminal sections and any wake-up order: same, and every write
@@ -69,44 +72,44 @@ Print Assumptions C20_exactly_once_noapp.
    after an erase with no render in between.  (Before the fix commits acce0d8
    and e58361b this failed for a proxy created inside create_app_session()
    and across Application.exit().) *)
-Theorem C20_in_order_running : forall c ls,
+Theorem C20_in_order_running : forall c r ls,
   forallb app_alive ls = true ->
-  let s := run (init_running c) ls in
+  let s := run (init_running2 c r) ls in
   pipeline s = stream ls /\ forallb ev_ok (out s) = true /\ brk_run (out s) <> None.
 Proof. exact in_order_running. Qed.
 Print Assumptions C20_in_order_running.
 
-Theorem C20_exactly_once_running : forall c ls,
-  forallb app_alive ls = true -> drained (run (init_running c) ls) ->
-  out_text (run (init_running c) ls) = concat (map snd (writes ls)).
+Theorem C20_exactly_once_running : forall c r ls,
+  forallb app_alive ls = true -> drained (run (init_running2 c r) ls) ->
+  out_text (run (init_running2 c r) ls) = concat (map snd (writes ls)).
 Proof.
-  intros c ls H D. rewrite <- stream_writes, <- (drained_out _ D).
-  exact (proj1 (in_order_running c ls H)).
+  intros c r ls H D. rewrite <- stream_writes, <- (drained_out _ D).
+  exact (proj1 (in_order_running c r ls H)).
 Qed.
 Print Assumptions C20_exactly_once_running.
 
 (* EVERY schedule (any life cycle, closed loops included): the flush thread
    never dies (aa2fd63: RuntimeError from a closed loop is caught). *)
-Theorem C20_flush_thread_never_dies : forall c ls, fth (px (run (init c) ls)) <> FCrash.
+Theorem C20_flush_thread_never_dies : forall c r ls, fth (px (run (init2 c r) ls)) <> FCrash.
 Proof. exact never_dies. Qed.
 Print Assumptions C20_flush_thread_never_dies.
 
 (* EVERY schedule: run-in-terminal sections start in submission order (ids are
    handed out at submission), whatever the order of wake-ups. *)
-Theorem C20_chain_fifo : forall c ls,
-  let s := run (init c) ls in started (ch s) = seq 0 (length (started (ch s))).
+Theorem C20_chain_fifo : forall c r ls,
+  let s := run (init2 c r) ls in started (ch s) = seq 0 (length (started (ch s))).
 Proof. exact chain_fifo. Qed.
 Print Assumptions C20_chain_fifo.
 
 (* EVERY schedule: only the head of the waiting sections can be woken, and
    only when no section is active. *)
-Theorem C20_chain_one_at_a_time : forall c ls i x,
-  let s := run (init c) ls in
+Theorem C20_chain_one_at_a_time : forall c r ls i x,
+  let s := run (init2 c r) ls in
   nth_error (waitq (ch s)) i = Some x -> fdone (ch s) (s_prev x) = true ->
   i = O /\ active (ch s) = None.
 Proof.
-  intros c ls i x s Hn F.
-  destruct (wake_head (ch s) i x (CI_run ls (init c) (CI_init c)) Hn F) as [A [B _]].
+  intros c r ls i x s Hn F.
+  destruct (wake_head (ch s) i x (CI_run2 ls c r) Hn F) as [A [B _]].
   split; assumption.
 Qed.
 Print Assumptions C20_chain_one_at_a_time.
@@ -169,3 +172,34 @@ Proof.
 Qed.
 Print Assumptions C20_stop_race_refuted.
 
+
+(* Outputs that answer cursor position requests: the print waits (cprwait) for
+   the outstanding report; a render during the wait is followed by the erase;
+   text printed after exit() queues behind the print that still waits. *)
+Example C20_example_cpr :
+  all_enabled (init2 true true) w_cpr_exit = true /\
+  out_text (run (init2 true true) w_cpr_exit) = ta ++ tb /\
+  all_enabled (init2 true true) w_cpr_render = true /\
+  out_text (run (init2 true true) w_cpr_render) = ta ++ tb /\
+  brk_run (out (run (init2 true true) w_cpr_render)) = Some false /\
+  cprwait (cp (run (init2 true true) ([LAppStart; LW 0 ta] ++ batch ++ [LLoopStep]))) = true.
+Proof. exact cpr_examples. Qed.
+Print Assumptions C20_example_cpr.
+
+(* Progress (bounded fuel): from EVERY state in which the flush thread has not
+   died, its own steps alone - fnext = the one enabled flush-thread label, at
+   most (length of the queue + 5) of them - empty the queue: the thread ends
+   idle on an empty queue, or has met the _Done sentinel and returned.  With
+   C20_queue_order (nothing lost up to the hand-over) this is the liveness half
+   of "after a flush": flush()/close() only have to put their item. *)
+Theorem C20_flush_thread_progress : forall s,
+  fth (px s) <> FCrash ->
+  settled (fiter (length (queue (px s)) + 5) s).
+Proof. exact flush_thread_progress. Qed.
+Print Assumptions C20_flush_thread_progress.
+
+(* ... and every such step is a step of the model by an enabled label. *)
+Theorem C20_progress_run_is_schedule : forall s,
+  fnext s = s \/ exists l, enabled s l = true /\ fnext s = step s l.
+Proof. exact fnext_is_step. Qed.
+Print Assumptions C20_progress_run_is_schedule.
